@@ -116,7 +116,7 @@ ENTRIES = {
              "is scored on the first-occurrence-unique (by sample, treatments; screen storage order) union of its own and the batch plates' rows; "
              "after save/load/concat the selected plate is a candidate, allowed, of minimal score among allowed plates, ties resolved as numpy "
              "argmin; None iff nothing is allowed. Tied to the code by running the extracted model and the real Screen / score_chunk / "
-             "ChunkedScoresHolder save_h5-load_h5-concat / select_next_plate / both CLI main()s on the same generated cases. In addition select_next_plate, score_chunk and the ChunkedScoresHolder methods add_score / combine / concat / plate_id_with_minimum_score are re-translated from /repo's source into Gallina on every run (harness/py2gal.py) and C06_model_is_source_* prove the models equal to the translations for all inputs. select_next_plate.main and calculate_scores.main are re-translated too (C06_model_is_source_cli_*): the plate id, or -1 exactly when nothing is selectable, is what is written.",
+             "ChunkedScoresHolder save_h5-load_h5-concat / select_next_plate / both CLI main()s on the same generated cases. In addition select_next_plate, score_chunk and the ChunkedScoresHolder methods add_score / combine / concat / plate_id_with_minimum_score are re-translated from /repo's source into Gallina on every run (harness/py2gal.py) and C06_model_is_source_* prove the models equal to the translations for all inputs. select_next_plate.main and calculate_scores.main are re-translated too (C06_model_is_source_cli_*): the plate id, or -1 exactly when nothing is selectable, is what is written. ChunkedScoresHolder.__init__ / get_score / save_h5 / load_h5 are re-translated as well; the holder round trip holds of the translated source; the plate primitives of the configurations are proved consistent with the translated Plate / Screen helpers.",
         note="Trusted: Coq kernel, extraction, OCaml driver, Python harness. numpy/h5py storage is modelled (identity round trip; "
              "zero-initialised slots modelled explicitly). The scorer is a function returning one score per handed plate (DBAL scorer is C05); "
              "KPerSamplePlatePolicy is replayed as data (C16). A non-empty batch with no id in the screen makes the code raise (stated as a "
@@ -127,7 +127,7 @@ ENTRIES = {
              "unobserved views split the screen by its mask (None iff empty), plates partition the rows; to_screen keeps the rows and never "
              "fails on constructor-built parents; the unique filter keeps exactly the first row per (sample id, treatment ids) key; views of "
              "different parents are refused; by induction on the op tree, every evaluated composition selects exactly the index-set reference "
-             "semantics. Tied to the code by running the extracted model and the real ScreenSubset / Plate / Screen API on the same random trees; single_treatment_effects is checked as one more per-row attribute of every view. In addition ScreenSubset.__init__ / subset / combine / concat / invert / to_screen, its attribute properties, and Screen.subset / subset_observed / subset_unobserved / get_plate / plates are re-translated from /repo's source into Gallina on every run and C14_model_is_source_* prove the model equal to the translations.",
+             "semantics. Tied to the code by running the extracted model and the real ScreenSubset / Plate / Screen API on the same random trees; single_treatment_effects is checked as one more per-row attribute of every view. In addition ScreenSubset.__init__ / subset / combine / concat / invert / to_screen, its attribute properties, and Screen.subset / subset_observed / subset_unobserved / get_plate / plates are re-translated from /repo's source into Gallina on every run and C14_model_is_source_* prove the model equal to the translations. Plate.plate_id / plate_name / __lt__ / merge, Screen.combine, the ScreenBase one-line properties and the unique filter are re-translated as well (C14_model_is_source_plate_merge, _screen_combine, _screen_properties, _view_properties, _select_unique, _filter_unique).",
         note="Trusted: Coq kernel, extraction, driver, harness. numpy boolean indexing, np.where, fancy assignment and np.unique(return_index) "
              "first-occurrence behaviour are modelled by their documented effect and exercised on every case. Parent identity is a tag. Mutation "
              "and aliasing are checked only at run time by pred. to_screen may renumber ids; rows are what is promised. single_treatment_effects, "
@@ -157,7 +157,7 @@ ENTRIES = {
              "observation, skip or strict refuse), itertools.combinations = every position subset once, space ids = the screen's mapping ids, "
              "correlation matrix symmetric / unit diagonal where defined / index-wise definition over the full space: each transcribed numpy "
              "expression equals its loop definition; the literal 'unit diagonal' clause is refuted for a single sample (NaN), as coded. Tied to the "
-             "code by 700+ generated cases per run through the real functions, the real Screen and real h5 files. In addition calculate_synergy, create_single_treatment_effect_map / _array, generate_full_combinatoric_space, the ModelEvaluation constructor, properties and mse / mse_variance / inter_chain_mse_variance / mean_predictions, predict_viability_avg and calculate_mse are re-translated from /repo's source on every run and C20_model_is_source_* prove the model equal to the translations (numpy reductions are declared primitives).",
+             "code by 700+ generated cases per run through the real functions, the real Screen and real h5 files. In addition calculate_synergy, create_single_treatment_effect_map / _array, generate_full_combinatoric_space, the ModelEvaluation constructor, properties and mse / mse_variance / inter_chain_mse_variance / mean_predictions, predict_viability_avg and calculate_mse are re-translated from /repo's source on every run and C20_model_is_source_* prove the model equal to the translations (numpy reductions are declared primitives). ModelEvaluation.save_h5 / load_h5 and correlation_matrix are re-translated as well; the evaluation round trip (incl. zero-experiment and square evaluations) holds of the translated source.",
         note="Trusted: Coq kernel, extraction, OCaml driver, harness; floats modelled as rationals (tolerance 1e-9), sqrt as oracle (unit diagonal "
              "under sqrt(S_i)^2 = S_i pointwise), h5py/string codec identity, pandas merge = keyed lookup, thetas stubbed as row-wise functions; "
              "entries that are 0/0 over the reals are not compared; correlation_matrix centres on the across-sample mean, so one sample gives NaN "
@@ -206,7 +206,7 @@ ENTRIES = {
              "or relaunched; no index skipped; inputs from the predecessor), under 'marker published last' and the repaired examine (or batch size "
              "1); both hypotheses shown necessary by vm_compute witnesses. The real script is driven in-process against a fake nextflow over all "
              "single and (thorough) exhaustive/sampled pairs of crash points, launch log and final tree compared with the model and with the "
-             "crash-free run. The invocation level (what run_next_* returns, the while loop of main(), the operator handing over a new screen per completed prospective batch) is modelled: an invocation never crosses a batch boundary, every launched step reads the operator screen of its iteration, invocations stop exactly at the batch boundary / when no plate remains; main() is driven per invocation with a distinct --screen per operator screen. examine_output_dir_to_determine_current_iteration, run_next_retrospective_step / run_next_prospective_step and the five directory helpers are re-translated from the script's source on every run and C19_model_is_source_* prove the model's examine (with the repair) / plan_of / call_returns equal to the translations.",
+             "crash-free run. The invocation level (what run_next_* returns, the while loop of main(), the operator handing over a new screen per completed prospective batch) is modelled: an invocation never crosses a batch boundary, every launched step reads the operator screen of its iteration, invocations stop exactly at the batch boundary / when no plate remains; main() is driven per invocation with a distinct --screen per operator screen. examine_output_dir_to_determine_current_iteration, run_next_retrospective_step / run_next_prospective_step and the five directory helpers are re-translated from the script's source on every run and C19_model_is_source_* prove the model's examine (with the repair) / plan_of / call_returns equal to the translations. main() (the while loop on fuel, discharged on every reachable tree), the four run_* command builders and dir_sort_key are re-translated as well: only get_args and the path helpers of the script remain untranslated.",
         note="No nextflow engine exists in the sandbox: workflows are represented by harness/fake_nextflow (publishes the files the script globs "
              "for, in a commanded order, crashing on command); nextflow's own resume cache and asynchronous publishDir are outside the model. The "
              "empty-iteration-directory defect found here was repaired in /repo (fix: 77b0dc7; witness in corpus/C19). KNOWN FINDING "
@@ -217,7 +217,7 @@ ENTRIES = {
              "unobserved experiments up to plate label, smoothers return a sub-multiset, the observed part passes through unchanged; the hold-out "
              "split is a partition including plate labels and masks, with exactly ceil(fraction*size) rows of each unobserved plate and none of "
              "the others under numpy's choice contract. Tied to the code by running the extracted model and the real classes on the same cases "
-             "with every rng / heappop / argsort answer recorded and replayed; full row lists compared exactly. In addition the core.py wrappers generate_plates / smooth_plates, MergeMin, MergeTopBottom and the plate-balanced hold-out are re-translated from /repo's source into Gallina on every run and C11_model_is_source_* prove the models equal to the translations (MergeMin's `while True` for sufficient fuel).",
+             "with every rng / heappop / argsort answer recorded and replayed; full row lists compared exactly. In addition the core.py wrappers generate_plates / smooth_plates, MergeMin, MergeTopBottom and the plate-balanced hold-out are re-translated from /repo's source into Gallina on every run and C11_model_is_source_* prove the models equal to the translations (MergeMin's `while True` for sufficient fuel). Screen.combine, to_screen, subset_observed / unobserved and is_observed, used as primitives by the wrapper links, are proved consistent with their own translations.",
         note="Trusted: Coq kernel, extraction, OCaml driver, Python harness including the recording Generator wrapper; numpy permutation/choice, "
              "heapq and argsort enter as oracle answers whose contract is checked on every run; Screen constructor reduced to the plate-uniform "
              "check; ids modelled as ranks of names; ceil(size*fraction) exact for dyadic fractions, Python's value otherwise."),
@@ -227,7 +227,7 @@ ENTRIES = {
              "optimal size, per-sample minimum (NPlatePerCellLine), merges within one sample, MergeMin stop rule, TopBottom halving, for all "
              "screens, parameters and oracle answers for which the operation returns. The pre-repair logic of the two classes found defective is "
              "kept behind a model switch and refuted by witnesses. SparseCover is proved to terminate for every contract-obeying answer stream within #samples + #distinct treatment ids draws; SampleSegregating plates of one sample differ in size by at most one; Pairwise single-agent rows join a combination plate of their own sample. Tied to the code by the same recorded-randomness correspondence as C11 plus "
-             "each shape clause evaluated on the real output. Every shipped generator, smoother, the random hold-out, the SparseCover initial plate (while loop on fuel discharged by the termination theorem) and the combination filter are re-translated from /repo's source on every run and C13_model_is_source_* / C11_model_is_source_* prove the models equal to the translations.",
+             "each shape clause evaluated on the real output. Every shipped generator, smoother, the random hold-out, the SparseCover initial plate (while loop on fuel discharged by the termination theorem) and the combination filter are re-translated from /repo's source on every run and C13_model_is_source_* / C11_model_is_source_* prove the models equal to the translations. The helpers the generator / smoother links used as primitives (Plate.merge, size and order, plates, unique_sample_ids) are proved consistent with their own translations.",
         note="Same trusted base as C11; heapq is modelled by its contract, not its array layout; no bound on SparseCover iterations is stated (the "
              "model recurses on the recorded answers). The two defects found here (SampleSegregating lumped small samples into plate ''; "
              "NPlatePerCellLine used stale sample ids) were repaired in /repo (fix: e3ac1df, fix: e05a1b9); the harness detects which variant "
